@@ -153,7 +153,11 @@ impl Axecutor {
             .ok_or_else(|| self.collect_mem_error_hints(address, length, "Read".to_string()))?;
 
         // Make sure it's in range before doing the slice access below
-        if address + length > area.start + area.length {
+        // (an end address that overflows is never in range)
+        if address
+            .checked_add(length)
+            .map_or(true, |end| end > area.start + area.length)
+        {
             return Err(self.collect_mem_error_hints(address, length, "Read".to_string()));
         }
 
@@ -256,11 +260,14 @@ impl Axecutor {
     }
 
     fn collect_mem_error_hints(&self, address: u64, length: u64, operation: String) -> AxError {
+        // This only picks a helpful message, so an overflowing end address is clamped
+        let end = address.saturating_add(length);
+
         // check if start or end address is within any of the memory areas
         for area in &self.state.memory {
             if address >= area.start
                 && address < area.start + area.length
-                && address + length > area.start + area.length
+                && end > area.start + area.length
             {
                 return AxError::from(format!(
                     "Memory {} of length {} at address {:#x} over end of memory area {} (start {:#x}, length {})",
@@ -278,7 +285,7 @@ impl Axecutor {
         }
 
         for area in &self.state.memory {
-            if address + length > area.start && address + length <= area.start + area.length {
+            if end > area.start && end <= area.start + area.length {
                 return AxError::from(format!(
                     "Memory {} of length {} at address {:#x} before start of memory area {} (start {:#x}, length {})",
                     operation.to_lowercase(),
@@ -381,7 +388,11 @@ impl Axecutor {
         };
 
         // Range check before doing the copy_from_slice below
-        if address + data.len() as u64 > area.start + area.length {
+        // (an end address that overflows is never in range)
+        if address
+            .checked_add(data.len() as u64)
+            .map_or(true, |end| end > area.start + area.length)
+        {
             return Err(self.collect_mem_error_hints(
                 address,
                 data.len() as u64,
